@@ -335,7 +335,7 @@ def campaign(cases, oracle, max_report=5, canon=None):
         ofail = oracle(c, li) if oracle else None
         if li != lm:
             stats["disagreements"] += 1
-            if len(violations) < max_report or ofail:
+            if stats["disagreements"] <= max_report or ofail:
                 k = first_diff(li, lm)
                 violations.append({
                     "kind": "correspondence",
